@@ -1,7 +1,8 @@
 (* C14 -- the fast Verilog reader agrees with the full reader on its documented subset.  Statements only; proofs in
    Proofs/FastVerilogProofs.v.  Models: Model/FastVerilog.v (fast_sem, full_sem, untie, in_subset). *)
+From Coq Require Import Ascii.
 From stdpp Require Import strings gmap sets.
-From CG Require Import Model.FastVerilog Proofs.FastVerilogProofs Proofs.FvA6 Proofs.FvA10 Proofs.FvD6 Base.Sem Gen.Gen_fastv.
+From CG Require Import Model.FastVerilog Model.FastVerilogText Proofs.FastVerilogTextProofs Proofs.FastVerilogProofs Proofs.FvA6 Proofs.FvA10 Proofs.FvD6 Base.Sem Gen.Gen_fastv.
 Open Scope string_scope.
 
 (* obligation on the regenerated tables: patterns of the fast reader as captured from a live call (keywords anchored with \b,
@@ -115,6 +116,20 @@ Theorem C14_tie_shapeb_spec : ∀ c, tie_shapeb c = true → ∃ t0 t1 tx, tie_s
 Proof. exact tie_shapeb_spec. Qed.
 Print Assumptions C14_tie_shapeb_spec.
 
+(* CHARACTER LEVEL (part of the scanning layer, proved): net_str.split(",") + strip() + the constant replacement recover the operand
+   list from every rendering with arbitrary blanks (space, tab, newline, ...) around the operands *)
+Theorem C14_split_join : ∀ c ps, ps ≠ [] → Forall (λ p, no_char c p = true) ps → split_on c (join_with c ps) = ps.
+Proof. exact split_join. Qed.
+Print Assumptions C14_split_join.
+Theorem C14_strip_pad : ∀ l s r, blanks l = true → no_ws s = true → blanks r = true → strip (l ++ s ++ r) = s.
+Proof. exact strip_pad. Qed.
+Print Assumptions C14_strip_pad.
+Theorem C14_fast_nets_render : ∀ t0 t1 (ops : list opd) (ws : list (string * string)), ops ≠ [] → length ws = length ops →
+  Forall (λ o, operand_ok (opd_text o) = true) ops → Forall (λ w, blanks w.1 = true ∧ blanks w.2 = true) ws →
+  fast_nets t0 t1 (join_with ","%char (pad <$> padded ops ws)) = fast_gate_opd t0 t1 <$> ops.
+Proof. exact fast_nets_render. Qed.
+Print Assumptions C14_fast_nets_render.
+
 (* non-vacuity: a concrete AST inside the subset (keyword inside an identifier, nets called tie0 / tie_0, leading underscore,
    constants at a gate, a pin and an assign, equal operands of a parity gate, unconnected and omitted pins, use before
    definition) on which the agreement holds *)
@@ -149,6 +164,10 @@ Definition ex_gates : ast :=
                   IGate Xnor "g3" [ONet "p"; ONet "a"; ONet "a"];
                   IAssign "tie0" (OConst "1'b0") ] |}.
 Example C14_agree_guard_inhabited : in_subset ex_gates [] = true ∧ no_inst ex_gates = true.
+Proof. split; vm_compute; reflexivity. Qed.
+Example C14_fast_nets_example :
+  fast_nets "tie0" "tie1" (join_with ","%char (pad <$> padded [ONet "o"; OConst "1'b1"; ONet "xinput"] [("  ", "	"); ("", " "); (" ", "")]))
+    = ["o"; "tie1"; "xinput"] ∧ fast_split " a ,,b  " = ["a"; ""; "b"].
 Proof. split; vm_compute; reflexivity. Qed.
 Example C14_parity_nonvacuous : is_parity Xnor = true ∧ cancel_pairs ["a"; "b"; "a"; "c"; "b"; "b"] = ["c"; "b"].
 Proof. split; vm_compute; reflexivity. Qed.
